@@ -65,7 +65,7 @@ def run(res, tier, seed):
              # POD with the clock-drift correction switched on (real table, TLE): neighbours of flagged lines must stay valid
              ("gac_pod", "noaa14", 60, "clean-drift"), ("lac_pod", "noaa14", 40, "clean-drift")]
     if tier == "thorough":
-        plans = [(f, s, n * 6, k) for f, s, n, k in plans] + [("gac_klm", "metopa", 600, "clean"), ("gac_pod", "noaa14", 600, "clean"),
+        plans = [(f, s, n * 6, k) for f, s, n, k in plans] + [("gac_klm", "metopa", 600, "clean"), ("gac_pod", "noaa14", 600, "clean"), ("gac_klm", "noaa19", 4300, "clean"),
                                                              ("lac_pod", "noaa11", 90, "wrapped"), ("lac_klm", "metopc", 90, "dropped")]
     cases, meta = [], []
     with common.scratch_dir() as d:
@@ -74,6 +74,8 @@ def run(res, tier, seed):
             fam = l1b.FMT[fmt]["family"]
             start = datetime.datetime(2001 if (fam == "klm" or pattern == "clean-drift") else 1990, 3, 4, 10, 0, 0)
             first = rng.choice([1, 1, 7, 300])
+            if fmt == "lac_klm":  # LAC line numbers are 16-bit unsigned: the upper half of the range must be reported as is
+                first = rng.choice([1, 32768 - n // 2, 40000, 65534 - n])
             qs = quality_words(rng, fam, n, tier)
             w = l1b.FMT[fmt]["width"]
             samples = [int(200 + 300 * ((j * 7) % 11) / 11.0) for j in range(5 * w)]
